@@ -308,11 +308,23 @@ fn cmd_run(args: &[String]) -> i32 {
 fn cmd_run_parent(args: &[String]) -> i32 {
     let mut child_args = vec!["run-inner".to_string()];
     child_args.extend(args.iter().cloned());
-    let (end, out) = watch::run_child(&child_args, Duration::from_secs(6 * 3600), true);
-    match end {
-        watch::ChildEnd::Exit(c) if c == 0 || c == 1 || c == 2 => c,
-        other => handle_suspect(args, other, &out),
+    // A suspicion that no fresh process reproduces (a call that "did not return" for 60 s of
+    // wall-clock time on a machine that was stalled or heavily oversubscribed) does not decide
+    // anything: the batch is executed once more before it counts as a harness error.
+    for attempt in 0..2 {
+        let (end, out) = watch::run_child(&child_args, Duration::from_secs(6 * 3600), true);
+        match end {
+            watch::ChildEnd::Exit(c) if c == 0 || c == 1 || c == 2 => return c,
+            other => match handle_suspect(args, other, &out) {
+                Ok(code) => return code,
+                Err(msg) if attempt == 0 => {
+                    println!("note: {}; the batch is executed once more", msg);
+                }
+                Err(msg) => die(&msg),
+            },
+        }
     }
+    2
 }
 
 fn classify_child(end: &watch::ChildEnd) -> Option<&'static str> {
@@ -335,7 +347,7 @@ fn judge_plan_in_child(dir: &str, tag: &str, rep: &Replay, limit: Duration) -> (
     (classify_child(&end), out)
 }
 
-fn handle_suspect(args: &[String], end: watch::ChildEnd, out: &str) -> i32 {
+fn handle_suspect(args: &[String], end: watch::ChildEnd, out: &str) -> Result<i32, String> {
     let (kind, runs, line) = match watch::parse_suspect(out) {
         Some(x) => x,
         None => die(&format!("the simulator child ended with {:?} and left no breadcrumb", end)),
@@ -461,9 +473,9 @@ fn handle_suspect(args: &[String], end: watch::ChildEnd, out: &str) -> i32 {
         let epath = format!("{}/evidence/{}.json", env.paths.verif, prop);
         let _ = std::fs::write(&epath, serde_json::to_string_pretty(&ev).unwrap());
         println!("VIOLATION property={} replay={}", prop, path);
-        return 1;
+        return Ok(1);
     }
-    die(&format!("the simulator child ended with {:?} ({}), but none of the suspected runs reproduces it in a fresh process", end, line.trim()))
+    Err(format!("the simulator child ended with {:?} ({}), but none of the suspected runs reproduces it in a fresh process", end, line.trim()))
 }
 
 /// `seq-digest <file> [--alone]`: executes the file's prefix plans (unless --alone) and then
